@@ -299,10 +299,11 @@ class Check:
               "violations": len(unknown)}
         if not ev["coverage"]["samples"]:
             ev["coverage"]["samples"] = ["(no sample recorded)"]
-        os.makedirs(EVID, exist_ok=True)
-        tmp = os.path.join(EVID, self.pid + ".json.tmp")
+        evdir = os.path.join(EVID, "extra") if self.pid.startswith("X") else EVID      # X..: coverage beyond the listed properties
+        os.makedirs(evdir, exist_ok=True)
+        tmp = os.path.join(evdir, self.pid + ".json.tmp")
         json.dump(ev, open(tmp, "w"), indent=1, sort_keys=True)
-        os.replace(tmp, os.path.join(EVID, self.pid + ".json"))
+        os.replace(tmp, os.path.join(evdir, self.pid + ".json"))
         log("[done] %s tier=%s seed=%s rc=%d wall=%.1fs states=%d transitions=%d impl_cases=%d" % (
             self.pid, self.tier, self.seed, rc, time.time() - self.t0, self.cov["states"], self.cov["transitions"],
             self.cov["traces_validated_against_impl"]))
